@@ -1057,3 +1057,56 @@ func RereadsAcrossKernels(c Case) bool {
 	}
 	return false
 }
+
+// GenPair draws a concurrent pair: two workloads with their own driver contexts in one
+// emulation run on plain GPUs (amd/samples/concurrentworkload), on the same GPU or on two GPUs.
+func GenPair(t *rapid.T) Case {
+	var c Case
+	rot := (stats.Shard()*5 + int(stats.Seed()%1000)*7) % len(workloadNames)
+	pick := func(label string) string {
+		return workloadNames[(rapid.IntRange(0, len(workloadNames)-1).Draw(t, label)+rot)%len(workloadNames)]
+	}
+	c.Workload = pick("workload")
+	second := pick("workload2")
+	c.Arch = "gcn3"
+	if !registry[c.Workload].gcn3 || !registry[second].gcn3 {
+		c.Arch = "cdna3"
+		if !registry[c.Workload].cdna3 {
+			c.Workload = "vectoradd"
+		}
+		if !registry[second].cdna3 {
+			second = "vectoradd"
+		}
+	}
+	c.GPUs = []int{1}
+	g2 := []int{1}
+	if rapid.IntRange(0, 2).Draw(t, "other-gpu") == 0 {
+		g2 = []int{2}
+	}
+	c.P = registry[c.Workload].gen(t, 1, false)
+	c.Second = &benchcase.Second{Workload: second, P: registry[second].gen(t, 1, false), GPUs: g2}
+	c.Seed = rapid.Int64Range(0, 9999).Draw(t, "seed")
+	return c
+}
+
+// AdmissiblePair returns "" when both halves of a concurrent pair are admissible single cases.
+func AdmissiblePair(c Case) string {
+	if c.Second == nil {
+		return "not a pair"
+	}
+	if c.Timing || c.Unified || c.UnifiedMemory || len(c.GPUs) != 1 || len(c.Second.GPUs) != 1 {
+		return "a pair runs in emulation, each workload on one plain GPU"
+	}
+	a := c
+	a.Second = nil
+	a.GPUs = []int{1}
+	if why := admissible(a); why != "" {
+		return "first workload: " + why
+	}
+	b := a
+	b.Workload, b.P = c.Second.Workload, c.Second.P
+	if why := admissible(b); why != "" {
+		return "second workload: " + why
+	}
+	return ""
+}
